@@ -15,6 +15,7 @@ import Driver.AtomicWrite
 import Driver.Notebook
 import Driver.CacheLayer
 import Driver.Fuzzy
+import Driver.Cli
 
 namespace Driver
 
@@ -39,6 +40,7 @@ def dispatch (dom : String) (ops : Array String) : Array String :=
   | "notebook" => Notebook.runCase ops
   | "cachelayer" => CacheLayer.runCase ops
   | "fuzzy" => Fuzzy.runCase ops
+  | "cli" => Cli.runCase ops
   | _ => ops.map (fun _ => "unknown-domain")
 
 end Driver
